@@ -213,6 +213,8 @@ def _analyze_node(node, config: Config, cwd: Path, *, remote: bool = False) -> D
     elif kind == "arith-cmd":
         # (( expr )) - check for command substitutions in the expression
         decisions = _analyze_expansion(node.expression, config, cwd, remote=remote)
+        if _has_unclosed_arith(getattr(node, "raw_content", "") or ""):
+            decisions.append(Decision("ask", "ambiguous $(( expansion"))
         decisions.extend(_analyze_redirects(node, config, cwd, remote=remote))
         return _combine(decisions) if decisions else Decision("allow", "arithmetic")
 
@@ -251,6 +253,8 @@ def _analyze_command(
     for position, word in enumerate(node.words):
         parts = getattr(word, "parts", [])
         word_value = getattr(word, "value", "")
+        if parts and _has_unclosed_arith(word_value):
+            decisions.append(Decision("ask", "ambiguous $(( expansion"))
         # Check if this is a pure cmdsub (entire word is just a cmdsub)
         is_pure_cmdsub = (
             len(parts) == 1
@@ -595,6 +599,8 @@ def _analyze_word_parts(
     """
     decisions = []
     parts = getattr(word, "parts", [])
+    if parts and _has_unclosed_arith(getattr(word, "value", "") or ""):
+        decisions.append(Decision("ask", "ambiguous $(( expansion"))
     for part in parts:
         part_kind = getattr(part, "kind", None)
         if part_kind == "cmdsub":
@@ -740,6 +746,34 @@ def _analyze_string_cmdsubs(
         else:
             i += 1
     return decisions
+
+
+def _has_unclosed_arith(s: str) -> bool:
+    """True if some "$((" in s is not closed by a matching "))".
+
+    bash reads "$((...) ...)" as a command substitution of a subshell unless the
+    parenthesis closing the inner "(" is immediately followed by the outer ")".
+    The parser takes every "$((" for an arithmetic expansion, so such text is
+    not analysed as the command it is.
+    """
+    start = s.find("$((")
+    while start != -1:
+        depth = 2
+        i = start + 3
+        closed = False
+        while i < len(s):
+            if s[i] == "(":
+                depth += 1
+            elif s[i] == ")":
+                depth -= 1
+                if depth == 1:
+                    closed = s[i + 1 : i + 2] == ")"
+                    break
+            i += 1
+        if not closed:
+            return True
+        start = s.find("$((", start + 3)
+    return False
 
 
 def _is_plain_raw(s: str) -> bool:
